@@ -216,6 +216,26 @@ def _p_complex_two_roots():
 register('C01', Probe('externally mapped instances whose part has a supertype under each of two roots', _p_complex_two_roots))
 
 
+def _p_complex_two_roots_deep():
+    # the same idea three levels deep: the ONEOF sits in an entity that is itself a subtype, the other root joins its subtypes by ANDOR
+    L = lambda n: ('leaf', n)
+    E = lambda n, sup=(), sx=None: M.Entity(n, supers=list(sup), sexpr=sx, attrs=[M.Attr('a_' + n, M.INT())])
+    s = M.Schema('pr_cx2d', [], [E('asset', sx=('andor', L('machine'), L('leased'))), E('leased', ['asset']), E('machine', ['asset'], sx=('oneof', [L('tool')])),
+                                 E('tool', ['machine'], sx=('oneof', [L('drill'), L('saw')])), E('saw', ['tool']),
+                                 E('product', sx=('andor', L('drill'), L('boxed'))), E('boxed', ['product']), E('drill', ['tool', 'product']),
+                                 M.Entity('shelf', attrs=[M.Attr('main', M.ENT('asset')), M.Attr('items', M.AGG('LIST', M.ENT('product'), 0, None))])])
+    cx = lambda iid, names: Inst(iid, [(n.upper(), [('int', iid * 10 + k)]) for k, n in enumerate(sorted(names))], True)
+    insts = [cx(3, ['asset', 'leased', 'machine', 'tool']), cx(4, ['asset', 'leased', 'machine', 'saw', 'tool']),
+             cx(6, ['asset', 'boxed', 'drill', 'machine', 'product', 'tool']), cx(7, ['asset', 'boxed', 'drill', 'leased', 'machine', 'product', 'tool']),
+             cx(8, ['asset', 'drill', 'machine', 'product', 'tool']),
+             Inst(9, [('SHELF', [('ref', 6), ('agg', [('ref', 6), ('ref', 7), ('ref', 8)])])]),
+             Inst(10, [('SHELF', [('ref', 3), ('agg', [])])])]
+    return s, insts
+
+
+register('C01', Probe('externally mapped instances over two roots, three levels deep', _p_complex_two_roots_deep))
+
+
 def _p_select_secondary_super():
     s = M.Schema('pr_sel2nd', [M.TypeDef('label', 'simple', base=M.STR()), M.TypeDef('sel1', 'select', members=['label', 'q'])],
                  [M.Entity('p', attrs=[M.Attr('x', M.INT())]),
